@@ -280,6 +280,21 @@ example : bTrace (fun (v : Val F4) => match v with | .int i => if i = 5 then "In
 example : mTrace (memoKey (N := Nat) id) (fun _ (fs : Facts F4) => match fs.get "x" with | some (.int _) => true | _ => false) {}
     [.eval 0 [("x", .int 5)], .eval 0 [("x", .str "5")], .eval 0 [("x", .int 5)]] = [true, false, true] := by decide
 
+-- memo: nested arrays with the same leaves but another grouping have different pre-images (the length
+-- prefix of `hash_fact_value`), so `count(x) == 2` / `x contains 2` / `x == y` are answered call by call
+example : factsPre (F := F4) [("x", .arr [.arr [.int 1], .int 2])] ≠ factsPre [("x", .arr [.arr [.int 1, .int 2]])] := by decide
+example : factsPre (F := F4) [("x", .arr [.arr [], .arr []])] ≠ factsPre [("x", .arr [.arr [.arr []]])] := by decide
+example : mTrace (memoKey (N := Node F4) (fun _ => 0)) (evalNode o4) {}
+    [.eval (.count "x" (some (.eq, 2))) [("x", .arr [.arr [.int 1], .int 2])],
+     .eval (.count "x" (some (.eq, 2))) [("x", .arr [.arr [.int 1, .int 2]])],
+     .eval (.count "x" (some (.eq, 2))) [("x", .arr [.arr [.int 1], .int 2])]] = [true, false, true] := by decide
+example : mTrace (memoKey (N := Node F4) (fun _ => 0)) (evalNode o4) {}
+    [.eval (.contains "x" "2" (.int 2)) [("x", .arr [.arr [.int 1], .int 2])],
+     .eval (.contains "x" "2" (.int 2)) [("x", .arr [.arr [.int 1, .int 2]])],
+     .eval (.alpha "x" false "y" (.str "y")) [("x", .arr [.arr [], .arr []]), ("y", .arr [.arr [], .arr []])],
+     .eval (.alpha "x" false "y" (.str "y")) [("x", .arr [.arr [.arr []]]), ("y", .arr [.arr [], .arr []])]]
+    = [true, false, true, false] := by decide
+
 -- conclusion index: re-adding a name with another conclusion, removing, adding again
 example : (cTrace {} []
     [.add ⟨"R", true, [.set "A.x"]⟩, .add ⟨"R", true, [.set "B.y"]⟩, .add ⟨"S", false, [.set "B.y"]⟩,
